@@ -6,6 +6,12 @@
  *   init <n>        -> "init n=<n> bits=<b> mask=<m> state=<s>"        myth_join_counter_init_body(jc, 0, n)
  *   widths 0        -> "widths state=<bytes> state_signed=<0|1> n_threads=<bytes> state_mask=<bytes> n_threads_bits=<bytes>"
  *                      sizeof of the words coq/JoinCounter/JcModel.v treats as 64-bit two's-complement longs
+ *   reinit <n1> <a|n> <n2> <a|n> ...
+ *                   -> "reinit n=.. bits=.. mask=.. state=.. ; n=.. ..."   one group per incarnation
+ *      Object lifecycle: ONE object (dirty memory first) is initialised with myth_join_counter_init_body(jc, attr, n_i)
+ *      several times, attr = NULL ('n') or an initialised myth_join_counterattr_t ('a'); after each incarnation the
+ *      harness stores the word of a completed round ((2 << bits) | n_i: two waiters, n_i decrements) into jc->state
+ *      through the struct, so that the next init sees a used object.
  *   preset <n> <k> <w>
  *                   -> "preset n=<n> k=<k> reg=<word after k registrations> pre=<word after the preset> dec=<ret>
  *                       state=<final word> released=<r> rets=<sum of wait return values> q=<queue length at the end>"
@@ -104,6 +110,31 @@ int main(void) {
         snprintf(out, sizeof(out), "widths state=%d state_signed=%d n_threads=%d state_mask=%d n_threads_bits=%d\n",
                  (int)sizeof(jc.state), (int)((__typeof__(jc.state))-1 < 0), (int)sizeof(jc.n_threads),
                  (int)sizeof(jc.state_mask), (int)sizeof(jc.n_threads_bits));
+      } else if (!strcmp(kind, "reinit")) {
+        alarm(2);
+        static myth_join_counter_t jc;
+        memset(&jc, 0x5a, sizeof(jc));
+        char * save = 0; char * tok = strtok_r(line, " \t\n", &save);      /* "reinit" */
+        size_t off = (size_t)snprintf(out, sizeof(out), "reinit");
+        int first = 1;
+        while ((tok = strtok_r(0, " \t\n", &save))) {
+          long ni = strtol(tok, 0, 10);
+          char * fl = strtok_r(0, " \t\n", &save);
+          if (fl && fl[0] == 'a') {
+            myth_join_counterattr_t a; memset(&a, 0x5a, sizeof(a));
+            myth_join_counterattr_init_body(&a);
+            myth_join_counter_init_body(&jc, &a, ni);
+            myth_join_counterattr_destroy_body(&a);
+          } else {
+            myth_join_counter_init_body(&jc, 0, ni);
+          }
+          off += (size_t)snprintf(out + off, sizeof(out) - off, "%s n=%ld bits=%d mask=%ld state=%ld", first ? "" : " ;",
+                                  jc.n_threads, jc.n_threads_bits, jc.state_mask, (long)jc.state);
+          first = 0;
+          /* the object is used: word of a completed round with two waiters */
+          jc.state = (2L << jc.n_threads_bits) | ni;
+        }
+        snprintf(out + off, sizeof(out) - off, "\n");
       } else if (!strcmp(kind, "preset")) {
         alarm(45);
         preset(x, k, w, out, sizeof(out));
